@@ -1,7 +1,7 @@
 SPECIFICATION DSpec
 CONSTANTS
-  Vals = {0, 8, 16, 48, 80, 84}
-  Ramps = {0, 16, 24, 32}
+  Vals = {0, 8, 16, 48, 84}
+  Ramps = {0, 16, 24}
   Jitters = {0}
   Shapes = {"ramp", "speed", "none", "writable", "readable"}
 INVARIANT TypeOK
